@@ -109,3 +109,6 @@ Proof. intros. apply safe_not_crash_hang. apply scanForPragmaArg_total; assumpti
 
 Lemma total_js_template_rescan : total_on (fun t => all_bytes t /\ 1 <= len t) run_jstemplate_tail.
 Proof. intros t [Hb Hn]. apply safe_not_crash_hang. apply run_jstemplate_tail_total; assumption. Qed.
+
+Lemma decodePacket_no_hang : forall bs, all_bytes bs -> decodePacket bs <> Hang.
+Proof. exact decodePacket_nohang. Qed.
